@@ -18,7 +18,8 @@ Inductive case :=
 | CCreateASbx (op a sbx w : Z)
 | CSet (w field v w' : Z)
 (* opProps rows [IsTest; SetRegA; ModeArgB; ModeArgC; Type] in opcode order; constants
-   [maxRegisters; opCodeMax; opMaxArgsA; opMaxArgsB; opMaxArgsC; opMaxArgBx; opMaxArgSbx; opBitRk; opMaxIndexRk] *)
+   [maxRegisters; opCodeMax; opMaxArgsA; opMaxArgsB; opMaxArgsC; opMaxArgBx; opMaxArgSbx; opBitRk; opMaxIndexRk;
+   FieldsPerFlush; MaxArrayIndex] *)
 | CProps (rows : list (list Z)) (consts : list Z).
 
 Definition digest_step (h w : Z) : Z :=
@@ -64,7 +65,8 @@ Definition props_rows : list (list Z) :=
       all_opcodes.
 
 Definition model_consts : list Z :=
-  [frame_limit; opCodeMax; opMaxArgsA; opMaxArgsB; opMaxArgsC; opMaxArgBx; opMaxArgSbx; opBitRk; opMaxIndexRk].
+  [frame_limit; opCodeMax; opMaxArgsA; opMaxArgsB; opMaxArgsC; opMaxArgBx; opMaxArgSbx; opBitRk; opMaxIndexRk;
+   fields_per_flush; max_array_index].
 
 Definition set_field (w field v : Z) : Z :=
   if field =? 0 then opSetOpCode w v else if field =? 1 then opSetArgA w v
